@@ -525,6 +525,9 @@ func c20BadCMP(name string, c *cmp.Config, peer party.ID) *cmp.Config {
 		d.ID = "zed"
 	case "cfg-id-empty":
 		d.ID = ""
+	case "cfg-rid-nil":
+		// passes the structural checks but cannot be written into the session hash
+		d.RID = nil
 	default:
 		panic("unknown cmp config mutation " + name)
 	}
@@ -900,7 +903,7 @@ func c20Fns() []*c20Fn {
 	}
 
 	cmpCfg := []string{"cfg-nil", "cfg-zero-struct", "cfg-empty", "cfg-group-nil", "cfg-ecdsa-share-nil", "cfg-paillier-nil", "cfg-public-nil", "cfg-public-self-missing",
-		"cfg-public-self-nil", "cfg-public-peer-missing", "cfg-public-peer-nil", "cfg-public-peer-ecdsa-nil", "cfg-public-peer-paillier-nil", "cfg-public-peer-pedersen-nil", "cfg-id-foreign", "cfg-id-empty"}
+		"cfg-public-self-nil", "cfg-public-peer-missing", "cfg-public-peer-nil", "cfg-public-peer-ecdsa-nil", "cfg-public-peer-paillier-nil", "cfg-public-peer-pedersen-nil", "cfg-id-foreign", "cfg-id-empty", "cfg-rid-nil"}
 	cmpCfgPre := append(append([]string{}, cmpCfg...), "cfg-elgamal-share-nil", "cfg-public-peer-elgamal-nil")
 	cmpOf := func(m *c20Mat, p *c20P, who party.ID, victim bool, n int) *cmp.Config {
 		c := m.cm[who]
@@ -923,7 +926,7 @@ func c20Fns() []*c20Fn {
 
 	fns = append(fns, &c20Fn{name: "cmp.Refresh", family: "cmprefresh", need: (*c20Mat).needCMP, hasT: true, baseIDs: abc, victim: "a",
 		cfgMuts: []string{"cfg-nil", "cfg-zero-struct", "cfg-empty", "cfg-group-nil", "cfg-ecdsa-share-nil", "cfg-public-nil", "cfg-public-self-missing", "cfg-public-self-nil",
-			"cfg-public-peer-nil", "cfg-public-peer-ecdsa-nil", "cfg-public-peer-paillier-nil", "cfg-public-peer-pedersen-nil", "cfg-id-foreign", "cfg-id-empty"},
+			"cfg-public-peer-nil", "cfg-public-peer-ecdsa-nil", "cfg-public-peer-paillier-nil", "cfg-public-peer-pedersen-nil", "cfg-id-foreign", "cfg-id-empty", "cfg-rid-nil"},
 		start: func(m *c20Mat, p *c20P, who party.ID, victim bool) protocol.StartFunc {
 			return cmp.Refresh(cmpOf(m, p, who, victim, len(m.ids)), nil)
 		},
